@@ -509,7 +509,14 @@ struct QExpression {
 
         } else {
             Value.Number.Natural = SizeT64{0};
-            Type                 = ExpressionType::NaturalNumber;
+
+            if (right_negative && (num_right != SizeT64{0})) {
+                // 0 ^ -n is a division by zero: no value.
+                Type = ExpressionType::NotANumber;
+                return false;
+            }
+
+            Type = ExpressionType::NaturalNumber;
         }
 
         return true;
